@@ -24,6 +24,7 @@ import hashlib
 import json
 import os
 import random
+import re
 import shutil
 import tempfile
 from pathlib import Path
@@ -256,6 +257,9 @@ class C17(core.Property):
         "(clock readings never decrease; a leader stamps a write strictly after the timestamps of the versions it has received in Replicate "
         "messages, i.e. positive network latency) in ml_coherent_of_positive_latency",
         "chain: 2 <= n (build_chain's own precondition)",
+        "mlm_run_gossip_complete_converges: quiescentB and MLM.KComplete of MLM.krun (no hypothesis on timestamps, values or "
+        "schedules); ml_judge_convergence_silent: ML.schedOK; *_judge_convergence_silent: hfin (last step shows the model's "
+        "stores) and, for the merging clause, hlog (the judge's reading of the log implies the model's knowledge computation)",
         "mlm_concurrent_merge_order_independent: MLM.AllConcurrent (each merged version neither dominates nor is dominated by "
         "what was merged before it); mlm_gossip_complete_converges: MLM.EvOK (ticks come from leaders, stray values are below the "
         "join of all) and MLM.Complete (every leader knows every leader)",
@@ -270,15 +274,21 @@ class C17(core.Property):
             "(ml_convergence_needs_coherence: decided 3-leader witness with a clock read backwards). Modelling limit, not a proof gap: the "
             "model never loses a message, so quiescence alone already means every leader has processed every Replicate and anti-entropy only "
             "re-delivers versions; convergence *through* anti-entropy after lost Replicates (network partitions) is outside the model and is "
-            "covered by the correspondence runs only as far as the harness generates it",
-        "HappyModel.C17.mlm_gossip_complete_converges": "merging resolvers: proved in three unbounded parts that are composed by "
-            "argument, not by one run-level theorem — (1) mlm_quiescent_clocks_agree: for every action list of the MLM transition "
-            "system, at quiescence all leaders carry the same vector clock for every key (no hypothesis); (2) "
-            "mlm_same_clock_install_is_join: between versions with equal clocks _install is the pure join of the values and keeps the "
-            "clock; (3) mlm_gossip_complete_converges: for a commutative/associative/idempotent join, any interleaving of "
-            "snapshot/merge events whose knowledge relation is complete leaves all leaders on the join of everything. Not proved as "
-            "one statement: that an MLM run from a Replicate-quiescent state refines the abstract gossip events (each "
-            "AntiEntropyRequest handler = noise* ; recv), which is what Spec.gossipComplete assumes when it reads a delivery log",
+            "covered by the correspondence runs only as far as the harness generates it. The strict inequality of ML.schedOK cannot "
+            "be weakened to what the engine guarantees (time never goes backwards): ml_positive_latency_needed is a decided "
+            "quiescent run with a monotone clock (zero link and store latency, all stamps equal) whose leaders end on 9 | 8 | 8; "
+            "the same tie arises on the real code at simulated times >= 2^23 s, where Instant.to_seconds() no longer resolves "
+            "nanoseconds (fixes/C17-multileader-causal-timestamp.*)",
+        "HappyModel.C17.mlm_judge_convergence_silent": "the run-level theorem is full: mlm_run_gossip_complete_converges — every MLM "
+            "action list that is quiescent and whose anti-entropy requests after the last write/Replicate handler step make the "
+            "knowledge complete (MLM.krun / KComplete) ends with all stores equal, no hypothesis on timestamps (composition of "
+            "run_inv, run_aux, run_subInv, replQuiescent_of_run, replQuiescent_clocks_agree and phase2_converges). What is carried as "
+            "a hypothesis (hlog) in the judge-silence theorem is that Spec.gossipComplete, which reads the *printed* delivery log, "
+            "implies KComplete, which reads the action list: the same computation on two representations; proving it needs the "
+            "decimal print/parse round trip of the driver. It is cross-checked on every run of the check (extra_checks: 240 merging "
+            "runs in quick, 1500 in thorough, judge-gossip vs ml-kcomplete must agree, a mismatch is exit 2). Likewise "
+            "ml_judge_convergence_silent and mlm_judge_convergence_silent take 'the last S line parses to storeOf of the model "
+            "stores' as the hypothesis hfin",
     }
 
     def __init__(self):
@@ -709,8 +719,20 @@ class C17(core.Property):
                 return t
         return impl_out
 
+    @staticmethod
+    def _mask_ts(case, lines):
+        """cases flagged `ts_unjudged` run at simulated times where `Instant.to_seconds()` (a float) no
+        longer resolves nanoseconds: the `@timestamp` of the `V` lines is then not compared (the model
+        stamps exact nanoseconds); values, writers, clocks and every decision still are"""
+        if not case.get("ts_unjudged"):
+            return lines
+        return [re.sub(r"@\d+/", "@_/", l) if l.startswith("S ") else l for l in lines]
+
     def compare_view(self, case, impl_out):
-        return self._after_timeout(case, impl_out)
+        return self._mask_ts(case, self._after_timeout(case, impl_out))
+
+    def model_postprocess(self, case, out):
+        return self._mask_ts(case, out)
 
     def judge_block(self, case, impl_out):
         impl_out = self._after_timeout(case, impl_out)
@@ -724,6 +746,39 @@ class C17(core.Property):
         if fam == "ml":
             return (f"judge-ml {case['n']} {0 if self.ml_kind(case) == 'lww' else 1}", list(impl_out))
         return None
+
+    def extra_checks(self, ctx):
+        """The theorem `mlm_run_gossip_complete_converges` reads "anti-entropy having run" off the model's
+        action list (`MLM.krun` / `KComplete`), the judge reads it off the implementation's delivery log
+        (`Spec.gossipComplete`); the two are not linked by a proof (print/parse round trip).  They are
+        computed here for the same runs and must give the same answer — a mismatch is a defect of the
+        framework, not of /repo, so it is reported as harness trouble."""
+        rng = random.Random(ctx.seed * 7919 + 17)
+        n_cases = 1500 if ctx.tier == "thorough" else 240
+        blocks, cases = [], []
+        for _ in range(n_cases):
+            c = self.gen_ml(rng, ctx.tier)
+            if self.ml_kind(c) == "lww":
+                c["resolver"] = rng.choice(["vcm-union", "custom-union", "vcm-max", "custom-max"])
+            out = core.run_impl_safe(self, c)
+            if out and out[0].startswith("IMPL-"):
+                continue
+            cases.append(c)
+            blocks.append((f"ml-kcomplete {c['n']} {c['nk']} {self.ml_kind(c)}", self._schedule(out)))
+            blocks.append((f"judge-gossip {c['n']}", list(out)))
+        outs = ctx.driver.run_blocks(blocks)
+        complete = 0
+        for i, c in enumerate(cases):
+            m, j = outs[2 * i], outs[2 * i + 1]
+            mk = m[0].split() if m else []
+            if len(mk) < 4 or mk[3] != "false":
+                continue        # the model rejected the schedule: that case is a disagreement of the main loop
+            if not j or mk[1] != j[0].split()[1]:
+                raise core.InfraError(f"C17: Spec.gossipComplete and MLM.kcomplete differ on {json.dumps(c)}: {m} vs {j}")
+            complete += mk[1] == "1"
+        ctx.stats["gossip_judge_vs_model_cases"] = len(cases)
+        ctx.stats["gossip_judge_vs_model_complete"] = complete
+        return []
 
     def nontrivial_key(self, case, impl_out):
         nw = sum(1 for o in case["ops"] if o[1] == "w")
@@ -797,6 +852,10 @@ THEOREMS = [
     "HappyModel.C17.mlm_replicate_order_matters",
     "HappyModel.C17.mlm_quiescent_clocks_agree",
     "HappyModel.C17.mlm_quiescent_covers",
+    "HappyModel.C17.mlm_run_gossip_complete_converges",
+    "HappyModel.C17.mlm_judge_convergence_silent",
+    "HappyModel.C17.ml_judge_convergence_silent",
+    "HappyModel.C17.ml_positive_latency_needed",
 ]
 C17.theorems = THEOREMS
 PROPERTY = C17()
